@@ -1466,4 +1466,44 @@ theorem sleep_exact (d : Nat) {s : State} (h : OnTime s) :
       · cases hx
       · exact ih1 t rid tk dl tid hx
 
+/-! ### reachable states; the ticket generator -/
+
+theorem reach_inv (cfg : Cfg) (ops : List Op) (hw : NoWrap (run (init cfg) ops).1) : Inv (run (init cfg) ops).1 := by
+  have := run_ind (P := fun s _ => Inv s) (G := NoWrap) noWrap_of_step
+    (fun s _ op hi hw => inv_step op hi hw) ops (init cfg) [] (inv_init cfg) hw
+  exact this
+
+/-- every observation of a history without a generator wrap is one a step may report (`ObsOk`) -/
+theorem reach_obs (cfg : Cfg) (ops : List Op) (hw : NoWrap (run (init cfg) ops).1) :
+    ∀ x ∈ (run (init cfg) ops).2, (∀ t rid tk tid, x ≠ .loopErr t rid tk tid) ∧ (∀ a b, x ≠ .clobber a b) := by
+  have := run_ind (P := fun s tr => Inv s ∧ ∀ x ∈ tr, (∀ t rid tk tid, x ≠ .loopErr t rid tk tid) ∧
+      (∀ a b, x ≠ .clobber a b)) (G := NoWrap) noWrap_of_step
+    (by
+      intro s tr op ⟨hi, ht⟩ hw
+      refine ⟨inv_step op hi hw, ?_⟩
+      intro x hx
+      rcases List.mem_append.1 hx with hx | hx
+      · exact ht x hx
+      · have hok := step_obs op hi hw x hx
+        constructor
+        · intro t rid tk tid hc; subst hc; exact hok
+        · intro a b hc; subst hc; exact hok)
+    ops (init cfg) [] ⟨inv_init cfg, by simp⟩ hw
+  simpa using this.2
+
+/-- the `n`-th output of `ticket_generator(initial)` (`n = 0`: the start value, never handed out) -/
+def ticketAt (initial : Nat) : Nat → Nat
+  | 0 => initial
+  | n + 1 => nextTicket initial (ticketAt initial n)
+
+theorem ticketAt_default (n : Nat) : ticketAt defaultInitial n = n % maxTicket + 1 := by
+  induction n with
+  | zero => rfl
+  | succ n ih =>
+    simp only [ticketAt, ih, nextTicket]
+    have hm : maxTicket = 4294967295 := rfl
+    have hi : defaultInitial = 1 := rfl
+    rw [hm, hi]
+    split <;> omega
+
 end AioslskVerif.Search
